@@ -125,6 +125,22 @@ fn exec(rln: &mut RLN, w: &[&str]) -> String {
             ("count", 1) => return format!("{}", rln.leaves_set()),
             ("path", 2) => { let i = usize::from_str_radix(w[1].trim_start_matches("0x"), 16).unwrap(); let mut c = Cursor::new(Vec::new()); let r = rln.get_proof(i, &mut c); return okb(r, c); }
             ("leaf", 2) => { let i = usize::from_str_radix(w[1].trim_start_matches("0x"), 16).unwrap(); let mut c = Cursor::new(Vec::new()); let r = rln.get_leaf(i, &mut c); return okb(r, c); }
+            ("set_leaves_from", 3) | ("init_leaves", 2) | ("atomic", 4) => {
+                let (i, vs, ix) = match w[0] { "set_leaves_from" => (w[1], w[2], "-"), "init_leaves" => ("0", w[1], "-"), _ => (w[1], w[2], w[3]) };
+                let idx = usize::from_str_radix(i.trim_start_matches("0x"), 16).unwrap();
+                let leaves: Vec<Fr> = if vs == "-" { vec![] } else { vs.split(',').map(|x| fr_of(x).unwrap()).collect() };
+                let lb = vec_fr_to_bytes_le(&leaves).unwrap();
+                let rem: Vec<u8> = if ix == "-" { vec![] } else { ix.split(',').map(|x| usize::from_str_radix(x.trim_start_matches("0x"), 16).unwrap() as u8).collect() };
+                let ib = vec_u8_to_bytes_le(&rem).unwrap();
+                let r = match w[0] {
+                    "set_leaves_from" => rln.set_leaves_from(idx, Cursor::new(lb)),
+                    "init_leaves" => rln.init_tree_with_leaves(Cursor::new(lb)),
+                    _ => rln.atomic_operation(idx, Cursor::new(lb), Cursor::new(ib)),
+                };
+                return if r.is_ok() { "ok".into() } else { "err".into() };
+            }
+            ("empty", 1) => { let mut c = Cursor::new(Vec::new()); let r = rln.get_empty_leaves_indices(&mut c); return okb(r, c); }
+            ("reset", 1) => return if rln.set_tree(20).is_ok() { "ok".into() } else { "err".into() },
             ("witness", 2) => return match rln.get_serialized_rln_witness(Cursor::new(unhex(w[1]).unwrap())) { Ok(b) => format!("ok {}", hexb(&b)), Err(_) => "err".into() },
             ("prove", 2) => { let mut c = Cursor::new(Vec::new()); let r = rln.generate_rln_proof(Cursor::new(unhex(w[1]).unwrap()), &mut c); return okb(r, c); }
             ("verify_rln", 2) => return verdict(rln.verify_rln_proof(Cursor::new(unhex(w[1]).unwrap()))),
